@@ -1,6 +1,6 @@
 (* Well-formedness of a regenerated pack table module (C18, used by C02/C11/C12). *)
 From Coq Require Import ZArith List Bool String.
-Require Import GV.Model.Accessor.
+Require Import GV.Lib.Dec GV.Model.Accessor.
 Import ListNotations.
 Open Scope Z_scope.
 
@@ -65,3 +65,32 @@ Fixpoint nodup_str (l : list string) : bool :=
 Definition module_ok (m : tmodule) : bool :=
   forallb (fun t => item_ok t || is_known_bad (m_file m) (d_tag (t_decl t))) (m_items m) &&
   keys_resolve m && nodup_str (tags m).
+
+(* ---- module naming (C18): file stem = lower(platform) [+ "-cfg-"/"-log-" + declared version] *)
+Definition name_ok (packs : list string) (m : tmodule) : bool :=
+  match m_kind m with
+  | KPack => String.eqb (m_file m) (lower (m_pack_name m))
+  | KCfg => existsb (fun p => String.eqb (m_file m) (p ++ "-cfg-" ++ dec_of_Z (m_version m))%string) packs
+  | KLog => existsb (fun p => String.eqb (m_file m) (p ++ "-log-" ++ dec_of_Z (m_version m))%string) packs
+  end.
+Definition pack_files (all : list tmodule) : list string :=
+  map m_file (filter (fun m => match m_kind m with KPack => true | _ => false end) all).
+Definition names_ok (all : list tmodule) : bool := forallb (name_ok (pack_files all)) all && nodup_str (map m_file all).
+
+(* ---- published layout (C18): positions, widths, bit positions, labels, writability, refresh window *)
+Definition ols_eqb (a b : option (list string)) : bool :=
+  match a, b with
+  | Some x, Some y => Nat.eqb (List.length x) (List.length y) && forallb (fun p => String.eqb (fst p) (snd p)) (combine x y)
+  | None, None => true | _, _ => false end.
+Definition item_layout_eqb (p c : titem) : bool :=
+  let dp := t_decl p in let dc := t_decl c in
+  String.eqb (d_tag dp) (d_tag dc) && atype_eqb (d_type dp) (d_type dc) && (d_pos dp =? d_pos dc) &&
+  oz_eqb (d_bitpos dp) (d_bitpos dc) && ols_eqb (d_items dp) (d_items dc) &&
+  Bool.eqb (d_rw dp) (d_rw dc) && Bool.eqb (d_temp dp) (d_temp dc) && shape_eqb (t_shape p) (t_shape c).
+Definition find_item (tag : string) (l : list titem) : option titem :=
+  find (fun t => String.eqb (d_tag (t_decl t)) tag) l.
+Definition layout_eqb (p c : tmodule) : bool :=
+  String.eqb (m_file p) (m_file c) && (m_version p =? m_version c) && (m_pack_type p =? m_pack_type c) &&
+  (m_begin p =? m_begin c) && (m_end p =? m_end c) &&
+  Nat.eqb (List.length (m_items p)) (List.length (m_items c)) &&
+  forallb (fun t => match find_item (d_tag (t_decl t)) (m_items c) with Some t' => item_layout_eqb t t' | None => false end) (m_items p).
